@@ -81,6 +81,12 @@ def _gate_requests(tier, seed):
         reqs.append({"est": "gaussian", "alphas": al, "dup": False, "extra": [20, 30, 50] if al == [700, 900] else []})
     for al in ([700], [500, 950]):
         reqs.append({"est": "bootstrap", "alphas": al, "dup": False, "extra": []})
+    # levels that are not "round" floats (computed levels such as 0.7 + 0.1, 2 / 3): the permille value plus a relative
+    # 2^-40, away from every tie of the minimum - the outcome is that of the permille level (seeded change C14_E: a
+    # level printed with six significant digits in one module and in full in another)
+    for al in ([700], [333], [910, 700], [667]):
+        reqs.append({"est": "nonparametric", "alphas": al, "dup": False, "extra": [], "fine": True})
+    reqs.append({"est": "gaussian", "alphas": [700, 910], "dup": False, "extra": [], "fine": True})
     # duplicated reporting unit ids
     reqs.append({"est": "nonparametric", "alphas": [700, 900], "dup": True, "extra": [30]})
     reqs.append({"est": "nonparametric", "alphas": [rnd.randint(100, 900)], "dup": True, "extra": []})
